@@ -147,6 +147,23 @@ type vfStatsT struct {
 	WallS       float64           `json:"wall_s"`
 	hashes      map[uint64]struct{}
 	start       time.Time
+	fast        map[string]int64 // single-goroutine label counters (enumerations)
+}
+
+func (s *vfStatsT) labelFast(l string) {
+	if s.fast == nil {
+		s.fast = map[string]int64{}
+	}
+	s.fast[l]++
+}
+
+func (s *vfStatsT) flushFast() {
+	s.mu.Lock()
+	for k, v := range s.fast {
+		s.Labels[k] += v
+	}
+	s.fast = nil
+	s.mu.Unlock()
 }
 
 const vfHashCap = 120000
